@@ -1,7 +1,7 @@
 """Worker for C04: generated @state_trigger functions of the REAL pyscript over histories of entity writes (virtual clock).
 stdin JSON {"cases": [...]} -> 'RESULT <json list of observations>'.
 
-Case (ids only; entity i = "pyscript.e<i>", attribute j = "x<j>", state value v = "s<v>", attribute value n = int n):
+Case (ids only; entity i = "pyscript.e<i>", attribute j = "x<j>", state value v = the digit string "<v>", attribute value n = int n):
   {"legacy": bool,
    "init":  [[e, v, [[a, n], ...]], ...]            entities existing before the script is loaded
    "trigs": [{"id": t, "fn": f, "groups": [{"kind": "str"|"list"|"set", "items": [ARG, ...]}, ...],
@@ -10,13 +10,17 @@ Case (ids only; entity i = "pyscript.e<i>", attribute j = "x<j>", state value v 
    "hist":  [[OP, ...], ...]                        bursts: the writes of a burst are issued back to back, then settle
   }
   ARG   = ["star", e] | ["expr", BEXP]
-  BEXP  = ["eqc", TERM, CONST] | ["nec", TERM, CONST] | ["eqt", TERM, TERM] | ["net", TERM, TERM] | ["truthy", TERM]
-        | ["not", BEXP] | ["and", BEXP, BEXP] | ["or", BEXP, BEXP]
+  BEXP  = ["eqc", OEXP, CONST] | ["nec", OEXP, CONST] | ["eqt", OEXP, OEXP] | ["net", OEXP, OEXP] | ["gtc", OEXP, n]
+        | ["truthy", OEXP] | ["not", BEXP] | ["and", BEXP, BEXP] | ["or", BEXP, BEXP]
+  OEXP  = TERM | ["str", OEXP] | ["int", OEXP] | ["orempty", OEXP] | ["orzero", OEXP] | ["strip", OEXP] | ["split0", OEXP]
+        | ["slice", OEXP]            (strip / split0 never directly on a TERM: that would be a longer dotted name)
   TERM  = ["val", e] | ["attr", e, a] | ["old", e] | ["oldattr", e, a]
-  CONST = ["none"] | ["str", v] | ["int", n]
+  CONST = ["none"] | ["str", v] | ["int", n] | ["empty"] | ["nonestr"]
   NAME  = ["ent", e] | ["attr", e, a] | ["old", e] | ["oldattr", e, a] | ["star", e]
   OP    = ["set", e, v, [[a, n], ...]] | ["del", e]
 Write number k (1-based over the flattened history) carries Context(id="pv<k>"), so a run names the event it belongs to.
+A request {"op": "names", "cases": [{"b": BEXP}, ...]} instead parses each rendered expression with the real AstEval and
+returns {"names": sorted(get_names()), "src": text} per case (no trigger is started).
 Observation: {"runs": [{"fn": f, "kw": [[key, KW], ...]}, ...] in start order, "err": [first log errors], "src": script}
   KW = ["none"] | ["sv", v, [[a, n], ...]] | ["state"] | ["ent", e] | ["ctx", k] | ["int", n] | ["other", text]
 """
@@ -52,24 +56,54 @@ def r_const(c):
     if c[0] == "none":
         return "None"
     if c[0] == "str":
-        return f"'s{c[1]}'"
+        return f"'{c[1]}'"
     if c[0] == "int":
         return str(c[1])
+    if c[0] == "empty":
+        return "''"
+    if c[0] == "nonestr":
+        return "'None'"
     raise ValueError(c)
+
+
+def r_oexp(o):
+    k = o[0]
+    if k in ("val", "attr", "old", "oldattr"):
+        return r_term(o)
+    x = r_oexp(o[1])
+    if k == "str":
+        return f"str({x})"
+    if k == "int":
+        return f"int({x})"
+    if k == "orempty":
+        return f"({x} or '')"
+    if k == "orzero":
+        return f"({x} or 0)"
+    if k in ("strip", "split0") and o[1][0] in ("val", "attr", "old", "oldattr"):
+        raise ValueError("method directly on a dotted name: " + repr(o))
+    if k == "strip":
+        return f"{x}.strip()"
+    if k == "split0":
+        return f"{x}.split(',')[0]"
+    if k == "slice":
+        return f"{x}[0:]"
+    raise ValueError(o)
 
 
 def r_bexp(b):
     k = b[0]
     if k == "eqc":
-        return f"({r_term(b[1])} == {r_const(b[2])})"
+        return f"({r_oexp(b[1])} == {r_const(b[2])})"
     if k == "nec":
-        return f"({r_term(b[1])} != {r_const(b[2])})"
+        return f"({r_oexp(b[1])} != {r_const(b[2])})"
     if k == "eqt":
-        return f"({r_term(b[1])} == {r_term(b[2])})"
+        return f"({r_oexp(b[1])} == {r_oexp(b[2])})"
     if k == "net":
-        return f"({r_term(b[1])} != {r_term(b[2])})"
+        return f"({r_oexp(b[1])} != {r_oexp(b[2])})"
+    if k == "gtc":
+        return f"({r_oexp(b[1])} > {b[2]})"
     if k == "truthy":
-        return r_term(b[1])          # bare dotted name
+        return r_oexp(b[1])          # a bare dotted name when the operand is a term
     if k == "not":
         return f"(not {r_bexp(b[1])})"
     if k == "and":
@@ -128,7 +162,7 @@ def make_script(case):
 
 
 def canon_sv(v):
-    m = re.fullmatch(r"s(\d+)", str(v))
+    m = re.fullmatch(r"(\d+)", str(v))
     if not m:
         return ["other", "state " + repr(str(v))[:60]]
     at = []
@@ -174,7 +208,7 @@ async def run_case(case):
     async with PyscriptEnv(files={}, legacy=bool(case["legacy"])) as env:
         hass = env.hass
         for e, v, at in case["init"]:
-            hass.states.async_set(ent(e), f"s{v}", {f"x{a}": n for a, n in at})
+            hass.states.async_set(ent(e), f"{v}", {f"x{a}": n for a, n in at})
         await env.settle()
         env.write("c04.py", src)
         await env.reload()
@@ -185,7 +219,7 @@ async def run_case(case):
                 k += 1
                 ctx = Context(id=f"pv{k}")
                 if op[0] == "set":
-                    hass.states.async_set(ent(op[1]), f"s{op[2]}", {f"x{a}": n for a, n in op[3]}, context=ctx)
+                    hass.states.async_set(ent(op[1]), f"{op[2]}", {f"x{a}": n for a, n in op[3]}, context=ctx)
                 else:
                     hass.states.async_remove(ent(op[1]), context=ctx)
             await env.settle()
@@ -199,8 +233,40 @@ async def run_case(case):
         return {"runs": runs, "err": errs[:4], "nerr": len(errs), "src": src}
 
 
+async def names_cases(cases):
+    import shutil
+    import tempfile
+
+    from pytest_homeassistant_custom_component.common import async_test_home_assistant
+
+    from vh.hassenv import interp_env_setup, new_interp
+
+    tmp = tempfile.mkdtemp(prefix="pv_c04n_", dir="/var/tmp")
+    out = []
+    try:
+        async with async_test_home_assistant(config_dir=tmp) as hass:
+            interp_env_setup(hass)
+            a, _gc = new_interp("c04names")
+            for case in cases:
+                src = r_bexp(case["b"])
+                try:
+                    a.parse(src, mode="eval")
+                    out.append({"names": sorted(await a.get_names()), "src": src})
+                except Exception as exc:  # pylint: disable=broad-except
+                    out.append({"names": None, "src": src, "err": type(exc).__name__ + ": " + str(exc)[:200]})
+            await hass.async_stop(force=True)
+    finally:
+        shutil.rmtree(tmp, ignore_errors=True)
+    return out
+
+
 def main():
     req = json.loads(sys.stdin.read())
+    if req.get("op") == "names":
+        import asyncio
+
+        print("RESULT " + json.dumps(asyncio.run(names_cases(req["cases"]))))
+        return
     out = []
     for case in req["cases"]:
         try:
